@@ -46,8 +46,11 @@ def build_basis_tree(shape, payloads):
     return BasisTree(root)
 
 
-def make_basis(kind, label):
+def make_basis(kind, label, rng=None):
+    """rng given: oscillator parameters vary from tree to tree (same dof names, class and size; different omega / x0)"""
     from renormalizer.model import basis as ba
+    if rng is not None and kind in ("sho", "sho2"):
+        return ba.BasisSHO(label, omega=float([0.7, 1.0, 1.4, 1.9][int(rng.integers(4))]), nbas=3 if kind == "sho" else 2, x0=float([0.0, 0.0, 0.3][int(rng.integers(3))]))
     if kind == "spin":
         return ba.BasisHalfSpin(label)
     if kind == "spinqn":
@@ -79,7 +82,7 @@ def random_tree(rng, n_nodes, flavour, max_group=2, allow_dummy=True):
             elif flavour == "spinqn":
                 b = make_basis("spinqn", f"s{cnt}")
             else:  # holstein-like
-                b = make_basis("e" if cnt % 2 == 0 else ("sho2" if cnt % 4 == 1 else "sho"), f"{'e' if cnt % 2 == 0 else 'v'}{cnt}")
+                b = make_basis("e" if cnt % 2 == 0 else ("sho2" if cnt % 4 == 1 else "sho"), f"{'e' if cnt % 2 == 0 else 'v'}{cnt}", rng)
             cnt += 1
             group.append(b)
             created.append(b)
